@@ -8,6 +8,8 @@ import (
 	"math"
 	"math/rand"
 	"runtime/debug"
+	"sync"
+	"sync/atomic"
 	"syscall"
 	"testing"
 	"unsafe"
@@ -368,4 +370,57 @@ func TestC15(t *testing.T) {
 		}
 	}
 	rec.Max("max_diff_over_tolerance_x1000", int64(maxRatio*1000))
+	// Several callers at once on one implementation object, as an index's searches and inserts use their space: a
+	// kernel's answer for given vectors is a function of those vectors, so each caller must keep getting, bit for bit,
+	// the answer it got when it was alone - whatever the other callers are computing.
+	for gi, name := range order {
+		if name == "native" || !rec.Mine(7000001+gi) {
+			continue
+		}
+		impl := impls[name]
+		for metric := 1; metric <= 3; metric++ {
+			const callers = 8
+			type pair struct {
+				a, b  amath.Vector
+				alone float32
+			}
+			pairs := make([]pair, callers)
+			crng := rec.Rand("c15-concurrent", gi*10+metric)
+			for g := range pairs {
+				n := []int{5, 6, 7, 24, 96, 97, 333}[(g+metric)%7]
+				off := 1 + g%3 // starts that are not 16-byte aligned (and one that may be)
+				bufA, bufB := make([]float32, n+8), make([]float32, n+8)
+				a, b := amath.Vector(bufA[off:off+n]), amath.Vector(bufB[(off+1)%4:(off+1)%4+n])
+				for i := range a {
+					a[i], b[i] = float32(crng.NormFloat64()), float32(crng.NormFloat64())
+				}
+				pairs[g] = pair{a, b, call(impl, metric, a, b)}
+			}
+			var wg sync.WaitGroup
+			var bad int64
+			var first atomic.Value
+			for g := range pairs {
+				wg.Add(1)
+				go func(g int) {
+					defer wg.Done()
+					p := pairs[g]
+					for it := 0; it < 60000 && atomic.LoadInt64(&bad) == 0; it++ {
+						if res := call(impl, metric, p.a, p.b); math.Float32bits(res) != math.Float32bits(p.alone) {
+							if atomic.AddInt64(&bad, 1) == 1 {
+								first.Store(fmt.Sprintf("caller %d (n=%d): %v while %d others call the same object, %v when called alone", g, len(p.a), res, callers-1, p.alone))
+							}
+							return
+						}
+					}
+				}(g)
+			}
+			wg.Wait()
+			rec.Count("concurrent_caller_rounds_"+name, 1)
+			if bad > 0 {
+				rec.Violation(fmt.Sprintf("%s:%s:answer-depends-on-concurrent-callers", name, metricName[metric]), first.Load().(string),
+					map[string]interface{}{"impl": name, "metric": metricName[metric], "seed": rec.Seed()})
+			}
+			rec.Case(mon.Digest("concurrent", name, metric), true)
+		}
+	}
 }
